@@ -17,6 +17,7 @@ var qsrc = []string{
 	"//@* | $v", "ancestor-or-self::* | $v", "count($v | $w)", "$v[. = $w]",
 	"preceding::node() | $w", "//node()", "*/node()", "descendant-or-self::*/node()", "//*/*", "*/node()/..",
 	"//text()/../node()", "$v/node()", "//*/@*/..", "//node()[last()]",
+	"*/*/@node()", "*/*/*/attribute::node()", "//@node()", "$v/@node()",
 }
 
 var ambiguous = []string{"f()/a", "$v/a", "(x)/a", "f()", "text()", "a[b]/c", "f()//a", "$v[1]/a"}
@@ -29,6 +30,11 @@ func Setup() {
 	for _, s := range histSrc {
 		g := xsel.MustBuildExpr(s)
 		hist = append(hist, &g)
+	}
+	histFn = nil
+	for _, s := range histFnSrc {
+		g := xsel.MustBuildExpr(s)
+		histFn = append(histFn, &g)
 	}
 	queries = nil
 	for _, s := range qsrc {
@@ -162,6 +168,29 @@ func sameResult(a, b xsel.Result) bool {
 	return a == nil && b == nil
 }
 
+// attrDoc: <r><a x y z><d s t u/><e w/></a><b k/><c p q/></r>: an element
+// with 3 attributes (attribute array with one spare slot) is followed by a
+// sibling whose single attribute fits into that slot, among siblings and
+// among grandchildren.
+func attrDoc() *hx.Built {
+	el := func(n string) hx.Event { return hx.Event{N: hx.Elem{Name: n}} }
+	at := func(n string) hx.Event { return hx.Event{N: hx.Attr{Name: n, Val: n}} }
+	end := hx.Event{End: true}
+	return hx.FromEvents([]hx.Event{el("r"), el("a"), at("x"), at("y"), at("z"), el("d"), at("s"), at("t"), at("u"), end, el("e"), at("w"), end, end,
+		el("b"), at("k"), end, el("c"), at("p"), at("q"), end, end})
+}
+
+// document: the exhaustive scripts, the skeleton, or the attribute document
+func genDoc() *hx.Built {
+	switch nd.Choice(3) {
+	case 1:
+		return hx.Skeleton()
+	case 2:
+		return attrDoc()
+	}
+	return hx.Gen(genOpts())
+}
+
 func genOpts() hx.GenOpts {
 	o := hx.GenOpts{MaxEvents: 4, MaxDepth: 2, Attrs: 1, NS: 0, Other: false}
 	if nd.Tier() > 0 {
@@ -173,7 +202,7 @@ func genOpts() hx.GenOpts {
 // RunPurity: two queries in sequence over shared cursors, a shared compiled
 // expression and caller-held node-sets with spare capacity.
 func RunPurity() {
-	b := hx.GenOrSkeleton(genOpts())
+	b := genDoc()
 	nd.Assert(b.TieOK, "store-mirrors-script")
 	nd.Assume(len(b.Doc.Nodes) >= 2)
 	v, w := pick(b, 2, 1), pick(b, 1, 1)
@@ -219,7 +248,7 @@ func RunPurity() {
 // the shared compiled expression or the shared node-set variables is written at
 // all (not even with the same value), so concurrent calls cannot race.
 func RunFootprint() {
-	b := hx.GenOrSkeleton(genOpts())
+	b := genDoc()
 	nd.Assert(b.TieOK, "store-mirrors-script")
 	nd.Assume(len(b.Doc.Nodes) >= 2)
 	v, w := pick(b, 2, 1), pick(b, 1, 1)
@@ -347,6 +376,58 @@ func RunHistory() {
 			nd.Assert(string(v) == want, "history.value-from-current-bindings")
 		case xsel.Bool:
 			nd.Assert(bool(v), "history.value-from-current-bindings")
+		}
+	}
+}
+
+var histFn []*xsel.Grammar
+var histFnSrc = []string{"count(//*)", "my-fn()", "//*[count(.) = 1]", "string(count(//*)) = '42'"}
+
+// RunFunctionHistory: a function bound in one execution is not visible to the
+// next: three executions, each independently binding (or not) a user function
+// named like the builtin count and one named my-fn; every execution must give
+// what its own bindings say (the builtin count, or an error for my-fn, when
+// nothing is bound now - whatever was bound before).
+func RunFunctionHistory() {
+	b := hx.Gen(hx.GenOpts{MaxEvents: 3, MaxDepth: 2, Attrs: 0})
+	nd.Assert(b.TieOK, "store-mirrors-script")
+	qi := nd.Choice(len(histFn))
+	q := histFn[qi]
+	nElems := len(b.Elements())
+	user := func(ctx xsel.Context, args ...xsel.Result) (xsel.Result, error) { return xsel.Number(42), nil }
+	nd.Reach("function-history")
+	for k := 0; k < 3; k++ {
+		bound := nd.Bool()
+		var set []xsel.ContextApply
+		if bound {
+			set = append(set, xsel.WithFunction("count", user), xsel.WithFunction("my-fn", user))
+		}
+		r, err := xsel.Exec(b.Root, q, set...)
+		switch qi {
+		case 0:
+			n, ok := r.(xsel.Number)
+			want := float64(nElems)
+			if bound {
+				want = 42
+			}
+			nd.Assert(err == nil && ok && float64(n) == want, "function-history.count-from-current-bindings")
+		case 1:
+			if bound {
+				n, ok := r.(xsel.Number)
+				nd.Assert(err == nil && ok && n == 42, "function-history.user-function-called")
+			} else {
+				nd.Assert(err != nil, "function-history.unbound-function-is-an-error")
+			}
+		case 2:
+			ns, ok := r.(xsel.NodeSet)
+			want := nElems
+			if bound {
+				want = 0
+			}
+			nd.Assert(err == nil && ok && len(ns) == want, "function-history.predicate-from-current-bindings")
+		case 3:
+			v, ok := r.(xsel.Bool)
+			nd.Assert(err == nil && ok && bool(v) == bound, "function-history.argument-from-current-bindings")
 		}
 	}
 }
